@@ -150,6 +150,9 @@ def install(R: Registry):
                    doc="sock.send / sock.sendmsg write a PREFIX of the data and return its length: the position of the stream inside the frame afterwards is unknown "
                        "unless the caller accounts for the result (frames/pending are left unconstrained)")
         R.contracts["Socket." + _partial].untyped = {"data"}
+    R.external("Socket.shutdown", params=dict(self="Socket", how="Int"), requires=[("C03 C07", "not self.closed")], modifies=[],
+               ensures=[], raises={"OSError": []},
+               doc="sock.shutdown(how): raises OSError (ENOTCONN) when the peer has already reset the connection - exactly the case of a vanished client")
     R.external("Socket.close", params=dict(self="Socket"), modifies=["Socket.closed"],
                ensures=["self.closed", "forall('s:Socket', implies(s != self, s.closed == old(s.closed)))"])
 
